@@ -38,6 +38,8 @@ def case_spec(prop, seed, i):
     rnd = gen.rng_for('hist', prop, seed, i)
     r = rnd.random()
     acc = 0
+    if r > .95:
+        return 'replica', gen.gen_replica(rnd)
     for name, w, kw in PROFILES:
         acc += w
         if r < acc:
